@@ -445,7 +445,13 @@ worker_thread_proc(void)
   for (;;) {
     while (next_task != NULL) {
       Trace(("worker[%2u]: scheduling task '%s'...", id, next_task->name));
+#ifdef KJN_LBZIP2_VERIF
+      verif_task(next_task->name, 1);
+#endif
       next_task->run();
+#ifdef KJN_LBZIP2_VERIF
+      verif_task(NULL, 0);
+#endif
       select_task();
     }
 
@@ -688,3 +694,26 @@ work(void)
     }
   }
 }
+
+
+#ifdef KJN_LBZIP2_VERIF
+/* Read-only probe of the I/O side of the scheduler (see verif.h). */
+unsigned
+verif_probe_process(struct verif_q *q, unsigned max, long *st)
+{
+  unsigned n = 0;
+
+  if (n < max) {
+    q[n].name = "output_q";
+    q[n].root = output_q.root;
+    q[n].size = output_q.size;
+    q[n].elem = sizeof(*output_q.root);
+    n++;
+  }
+  st[0] = finish;
+  st[1] = request_close;
+  st[2] = process == &compression ? 1 : process == &expansion ? 2 :
+    process != NULL ? 3 : 0;
+  return n;
+}
+#endif
